@@ -4,11 +4,13 @@ import (
 	"context"
 	"encoding/json"
 	"fmt"
+	"google.golang.org/grpc"
 	"math/rand"
 	"net/http"
 	"sort"
 	"strings"
 	"time"
+	"verif/internal/backend"
 
 	"github.com/gobwas/ws/wsutil"
 	"google.golang.org/genproto/googleapis/api/annotations"
@@ -52,6 +54,9 @@ type CfgCase struct {
 	// names / body): the configured rule must still behave as written.
 	Own       *RuleSpec `json:"own_annotation,omitempty"`
 	OwnMethod int       `json:"own_method,omitempty"`
+	// Via: how the services reach the mux on the service-config side (see
+	// buildSCVia); the annotation side is always registered locally.
+	Via string `json:"via,omitempty"`
 }
 
 // modelBinds is the reference: which methods a selector covers.
@@ -94,13 +99,32 @@ type scBuilt struct {
 	rec   *Built // recorder only
 	err   error
 	panic *mon.PanicInfo
+	bes   []*backend.Backend
 }
+
+func (b *scBuilt) close() {
+	for _, be := range b.bes {
+		be.Close()
+	}
+}
+
+// how the universe reaches the mux on the service-config side
+var c19Vias = []string{"", "conn", "conn-twice-drop-first", "conn-twice-drop-second", "conn-refresh"}
 
 var c19seq int
 
 // buildSC registers the universe on a mux. perMethod lists the annotation
 // rules of each method (mux A); cfg are service-config rules (mux B).
 func buildSC(perMethod map[int][]RuleSpec, cfg []CfgRule) (*scBuilt, error) {
+	return buildSCVia(perMethod, cfg, "")
+}
+
+// buildSCVia: via "" registers the services locally; "conn" serves them from
+// a real back-end registered with RegisterConn (descriptors through
+// reflection); "conn-twice-drop-first|second" registers two back-ends for
+// them and drops one again; "conn-refresh" registers the same connection
+// twice.
+func buildSCVia(perMethod map[int][]RuleSpec, cfg []CfgRule, via string) (*scBuilt, error) {
 	c19seq++
 	byPkg := map[string]*vschema.File{}
 	var pkgs []string
@@ -170,6 +194,58 @@ func buildSC(perMethod map[int][]RuleSpec, cfg []CfgRule) (*scBuilt, error) {
 	}
 	out.mux = mux
 	out.rec.Mux = mux
+	if via != "" {
+		var svcs []backend.Svc
+		for _, fd := range fds {
+			for i := 0; i < fd.Services().Len(); i++ {
+				svcs = append(svcs, backend.Svc{SD: fd.Services().Get(i), Impl: out.rec})
+			}
+		}
+		n := 1
+		if strings.HasPrefix(via, "conn-twice") {
+			n = 2
+		}
+		for k := 0; k < n; k++ {
+			be, err := backend.Start(fmt.Sprintf("sc%d", k), true, svcs...)
+			if err != nil {
+				out.close()
+				return nil, err
+			}
+			out.bes = append(out.bes, be)
+		}
+		reg := func(be *backend.Backend) bool {
+			ctx, cancel := context.WithTimeout(context.Background(), 20*time.Second)
+			defer cancel()
+			var rerr error
+			if pi := mon.Catch(func() { rerr = mux.RegisterConn(ctx, be.CC) }); pi != nil {
+				out.panic = pi
+				return false
+			}
+			if rerr != nil {
+				out.err = rerr
+				return false
+			}
+			return true
+		}
+		for _, be := range out.bes {
+			if !reg(be) {
+				return out, nil
+			}
+		}
+		ctx, cancel := context.WithTimeout(context.Background(), 20*time.Second)
+		defer cancel()
+		switch via {
+		case "conn-twice-drop-first":
+			mux.DropConn(ctx, out.bes[0].CC)
+		case "conn-twice-drop-second":
+			mux.DropConn(ctx, out.bes[1].CC)
+		case "conn-refresh":
+			if !reg(out.bes[0]) {
+				return out, nil
+			}
+		}
+		return out, nil
+	}
 	for _, fd := range fds {
 		for i := 0; i < fd.Services().Len(); i++ {
 			sd := fd.Services().Get(i)
@@ -210,10 +286,14 @@ func execCfg(r *mon.Run, c *CfgCase, rng *rand.Rand) {
 	if c.Own != nil {
 		own = map[int][]RuleSpec{c.OwnMethod: {*c.Own}}
 	}
-	B, err := buildSC(own, c.Rules)
+	B, err := buildSCVia(own, c.Rules, c.Via)
 	if err != nil {
 		r.Inconclusive("harness: " + err.Error())
 		return
+	}
+	defer B.close()
+	if c.Via != "" {
+		r.Count("configurations_registered_through_connections", 1)
 	}
 	if B.panic != nil {
 		r.Violate(B.panic.Key(), "service-config registration panicked: "+B.panic.Value, c)
@@ -246,6 +326,9 @@ func execCfg(r *mon.Run, c *CfgCase, rng *rand.Rand) {
 		which := "config-rejected-annotation-accepted"
 		if B.err == nil {
 			which = "config-accepted-annotation-rejected"
+		}
+		if c.Via != "" {
+			which += ":via-" + c.Via
 		}
 		r.Violate("registration-differs:"+which+":"+selClass, fmt.Sprintf("annotations: %v; service config: %v", A.err, B.err), c)
 		return
@@ -287,6 +370,9 @@ func execCfg(r *mon.Run, c *CfgCase, rng *rand.Rand) {
 				if strings.HasSuffix(cr.Selector, "*") {
 					sk = "wildcard"
 				}
+				if c.Via != "" {
+					sk += ":via-" + c.Via
+				}
 				r.Violate("selector:"+cls+":"+sk+fmt.Sprintf(":model-binds-%d", min(len(binds), 2)),
 					fmt.Sprintf("selector %q (model binds %d methods): %s %s -> annotations [%s], service config [%s]", cr.Selector, len(binds), verb, in.Path(), oa, ob), c)
 				return
@@ -303,6 +389,9 @@ func execCfg(r *mon.Run, c *CfgCase, rng *rand.Rand) {
 		sk := "exact"
 		if strings.HasSuffix(cr.Selector, "*") {
 			sk = "wildcard"
+		}
+		if c.Via != "" {
+			sk += ":via-" + c.Via
 		}
 		r.Distinct(fmt.Sprintf("%s:binds%d:depth%d:%s", sk, min(len(binds), 2), strings.Count(cr.Selector, "."), t.Shape()))
 	}
@@ -352,6 +441,9 @@ func RunC19(r *mon.Run) {
 		for j := 0; j < k; j++ {
 			c.Rules = append(c.Rules, CfgRule{Selector: pool[rng.Intn(len(pool))], Rule: cfgRuleTemplates(j, rng)})
 		}
+		if i%9 == 4 {
+			c.Via = c19Vias[1+(i/9)%(len(c19Vias)-1)]
+		}
 		if r.SampleN() < 5 && i%97 == 0 {
 			r.Sample(c)
 		}
@@ -394,7 +486,11 @@ var healthzVariants = []struct {
 	post  []*annotations.HttpRule // appended afterwards
 	twice bool
 	extra string // another GET path bound to Health.Check by the configuration
+	via   string // "" local health server, else as in buildSCVia
 }{
+	{name: "health-on-backend", via: "conn"},
+	{name: "health-on-two-backends-first-dropped", via: "conn-twice-drop-first"},
+	{name: "health-on-backend+own-check-rule", via: "conn", pre: []*annotations.HttpRule{{Selector: "grpc.health.v1.Health.Check", Pattern: &annotations.HttpRule_Get{Get: "/readyz"}}}, extra: "/readyz"},
 	{name: "empty"},
 	{name: "own-check-rule-before", pre: []*annotations.HttpRule{{Selector: "grpc.health.v1.Health.Check", Pattern: &annotations.HttpRule_Get{Get: "/readyz"}}}, extra: "/readyz"},
 	{name: "own-watch-rule-before", pre: []*annotations.HttpRule{{Selector: "grpc.health.v1.Health.Watch", Pattern: &annotations.HttpRule_Custom{Custom: &annotations.CustomHttpPattern{Kind: "WEBSOCKET", Path: "/watchz"}}}}},
@@ -431,7 +527,35 @@ func healthzVariant(r *mon.Run, rng *rand.Rand, vi int) {
 		r.Inconclusive("healthz mux: " + err.Error())
 		return
 	}
-	if err := larking.VerifRegisterService(mux, &healthpb.Health_ServiceDesc, hs); err != nil {
+	if hv.via != "" {
+		n := 1
+		if strings.HasPrefix(hv.via, "conn-twice") {
+			n = 2
+		}
+		var bes []*backend.Backend
+		for k := 0; k < n; k++ {
+			// every back-end serves the same health server object
+			be, err := backend.Start(fmt.Sprintf("hz%d", k), true, backend.Svc{Register: func(gs *grpc.Server) { healthpb.RegisterHealthServer(gs, hs) }})
+			if err != nil {
+				r.Inconclusive("healthz back-end: " + err.Error())
+				return
+			}
+			defer be.Close()
+			bes = append(bes, be)
+			ctx, cancel := context.WithTimeout(context.Background(), 20*time.Second)
+			err = mux.RegisterConn(ctx, be.CC)
+			cancel()
+			if err != nil {
+				r.Violate("healthz:registration-failed:"+hv.name, "RegisterConn of a back-end serving grpc.health.v1.Health with AddHealthz rules failed: "+err.Error(), nil)
+				return
+			}
+		}
+		if hv.via == "conn-twice-drop-first" {
+			ctx, cancel := context.WithTimeout(context.Background(), 20*time.Second)
+			mux.DropConn(ctx, bes[0].CC)
+			cancel()
+		}
+	} else if err := larking.VerifRegisterService(mux, &healthpb.Health_ServiceDesc, hs); err != nil {
 		r.Violate("healthz:registration-failed", "health service with AddHealthz rules rejected: "+err.Error(), nil)
 		return
 	}
